@@ -128,7 +128,8 @@ Section Hist.
   Variable eqA : A -> A -> bool.
 
   Inductive op := OAlloc (v : A) | ODelete (id : nat) | OGet (id : nat)
-                | OContains (id : nat) | OIter | OLen | OFind (v : A).
+                | OContains (id : nat) | OIter | OLen | OFind (v : A)
+                | OIterMut.    (* iter_mut(): a separate iterator type (IterMut) in the Rust; must yield the same live items *)
   Inductive out := RId (id : nat) | RUnit | RPanic | ROpt (v : option A)
                  | RBool (b : bool) | RList (l : list (nat * A)) | RLen (n : nat)
                  | RFind (o : option nat).
@@ -150,6 +151,7 @@ Section Hist.
     | OIter => (a, RList (iter a))
     | OLen => (a, match len a with Some n => RLen n | None => RPanic end)
     | OFind v => (a, RFind (find_id v (iter a)))
+    | OIterMut => (a, RList (iter a))
     end.
 
   Fixpoint run (a : tarena A) (ops : list op) : tarena A * list out :=
@@ -171,6 +173,7 @@ Section Hist.
     | OIter => (s, RList (aset_iter s))
     | OLen => (s, match len (arena s) with Some n => RLen n | None => RPanic end)
     | OFind v => (s, RFind (find_id v (aset_iter s)))
+    | OIterMut => (s, RList (aset_iter s))
     end.
 
   Fixpoint srun (s : aset A) (ops : list op) : aset A * list out :=
@@ -181,7 +184,7 @@ Section Hist.
     end.
 End Hist.
 Arguments OAlloc {A}. Arguments ODelete {A}. Arguments OGet {A}. Arguments OContains {A}.
-Arguments OIter {A}. Arguments OLen {A}. Arguments OFind {A}.
+Arguments OIter {A}. Arguments OLen {A}. Arguments OFind {A}. Arguments OIterMut {A}.
 Arguments RId {A}. Arguments RUnit {A}. Arguments RPanic {A}. Arguments ROpt {A}.
 Arguments RBool {A}. Arguments RList {A}. Arguments RLen {A}. Arguments RFind {A}. Arguments find_id {A}.
 Arguments step {A}. Arguments run {A}. Arguments sstep {A}. Arguments srun {A}.
